@@ -8,7 +8,7 @@ for SRC in "$@"; do
   git -C /repo worktree add -q --detach "$W" HEAD || continue
   git -C "$W" apply "$SRC/patch.diff" || { echo "DEMO $NAME patch does not apply"; git -C /repo worktree remove --force "$W"; continue; }
   DEMO=$(ls "$SRC"/demo*.cpp | head -1)
-  np=${NP[$NAME]:-0}
+  np=$(cat "$SRC/np" 2>/dev/null || echo ${NP[$NAME]:-0})
   res=""
   for variant in pristine mutant; do
     inc=/repo/include; [ $variant = mutant ] && inc=$W/include
